@@ -76,6 +76,16 @@ H(startsends) {String s; Model m; MakeString(s, m, L0); String t; Model tm; Make
                bool sw = (tm.n <= m.n); for (uint32 i=0;(i<tm.n)&&sw;i++) if (m.b[i]!=tm.b[i]) sw=false; CHECK(s.StartsWith(t) == sw, "StartsWith(String)");
                bool ew = (tm.n <= m.n); for (uint32 i=0;(i<tm.n)&&ew;i++) if (m.b[m.n-tm.n+i]!=tm.b[i]) ew=false; CHECK(s.EndsWith(t) == ew, "EndsWith(String)");
                CheckString(s, m); END();}
+H(lastindexofstr) {String s; Model m; MakeString(s, m, L0); String t; Model tm; MakeString(t, tm, M1);      // M1 >= 1
+               int last = -1; for (uint32 i=0; i+tm.n<=m.n; i++) {bool eq = true; for (uint32 j=0;j<tm.n;j++) if (m.b[i+j]!=tm.b[j]) eq = false; if (eq) last = (int)i;}
+               CHECK(s.LastIndexOf(t) == last, "LastIndexOf(String): the last position where the operand occurs, -1 if none");
+               const uint32 from = K2; int lf = -1; if (from < m.n) for (uint32 i=0; (i<=from)&&(i+tm.n<=m.n); i++) {bool eq = true; for (uint32 j=0;j<tm.n;j++) if (m.b[i+j]!=tm.b[j]) eq = false; if (eq) lf = (int)i;}
+               CHECK(s.LastIndexOf(t, from) == lf, "LastIndexOf(String, fromIndex): the last occurrence starting at or before fromIndex");
+               CheckString(s, m); CheckString(t, tm); END();}
+H(replacechar) {String s; Model m; MakeString(s, m, L0); const uint8 fc = nondet_u8(), rc = nondet_u8(); ASSUME((fc != 0)&&(rc != 0)); const uint32 from = M1, maxn = K2;
+               uint32 cnt = 0; if ((fc != rc)&&(from < m.n)) for (uint32 i=from; i<m.n; i++) if ((cnt < maxn)&&(m.b[i] == fc)) {m.b[i] = rc; cnt++;}
+               CHECK(s.Replace((char)fc, (char)rc, maxn, from) == cnt, "Replace(char,char,max,from) returns the number of replacements");
+               CheckString(s, m); END();}
 H(reverse)    {String s; Model m; MakeString(s, m, L0); s.Reverse(); for (uint32 i=0;i<m.n/2;i++) {uint8 t=m.b[i]; m.b[i]=m.b[m.n-1-i]; m.b[m.n-1-i]=t;} CheckString(s, m); END();}
 H(flatten)    {String s; Model m; MakeString(s, m, L0); CHECK(s.FlattenedSize() == m.n+1, "FlattenedSize = length + NUL"); uint8 buf[MAXS]; s.FlattenToBytes(buf, m.n+1);
                for (uint32 i=0;i<m.n;i++) CHECK(buf[i]==m.b[i], "flattened byte"); CHECK(buf[m.n]==0, "flattened NUL");
